@@ -295,7 +295,7 @@ func timeUnixNano(e *Engine, st *State, args []Value, depth int, pos string, k f
 func clockGetTime(e *Engine, st *State, args []Value, depth int, pos string, k func(*State, Value)) {
 	// the HLC's clock is an unconstrained input (C04: "whatever the clock does")
 	t := e.fresh(st, "clockdraw", SInt)
-	st.assume(And(Ge(t, IntLit(0)), Le(t, Term{"18446744073709551615", SInt})))
+	st.assume(And(Ge(t, IntLit(0)), Le(t, mkT("18446744073709551615", SInt))))
 	st.clockDraws = append(st.clockDraws, t)
 	k(st, sym(t))
 }
@@ -379,7 +379,7 @@ func (e *Engine) valueKeyTerm(st *State, v Value) Term {
 	case VIface:
 		return e.valueKeyTerm(st, a.V)
 	}
-	return Term{sanitize(showValue(v)), SStr}
+	return mkT(sanitize(showValue(v)), SStr)
 }
 
 func (e *Engine) sliceElems(st *State, v Value) []Value {
@@ -698,8 +698,8 @@ func listRemove(e *Engine, st *State, args []Value, depth int, pos string, k fun
 	// only removal of the back element is used (queue.pull)
 	shifted := e.fresh(st, "listshift", SEvSeq)
 	i := "i!shift"
-	st.assume(Term{fmt.Sprintf("(forall ((%s Int)) (! (= (select %s %s) (select %s (+ %s 1))) :pattern ((select %s %s))))",
-		i, shifted.S, i, l.Seq.S, i, shifted.S, i), SBool})
+	st.assume(mkT(fmt.Sprintf("(forall ((%s Int)) (! (= (select %s %s) (select %s (+ %s 1))) :pattern ((select %s %s))))",
+		i, shifted.S, i, l.Seq.S, i, shifted.S, i), SBool))
 	st.heap[cell] = &ListObj{Seq: shifted, Len: Sub(l.Len, IntLit(1)), NilT: l.NilT}
 	st.addTrace(TraceEv{Kind: "list.removeback", Pos: pos})
 	k(st, VUnknown{nil, "removed"})
